@@ -67,7 +67,7 @@ class Ctx:
 
 def _execute(ctx):
     scn = ctx.scn
-    prec = scn["prec"]
+    prec = dict(scn["prec"])          # a run may refine precisions ("reprec"): never touch the scenario itself
     bases = scn["bases"]
     inv = scn.get("inv")
     # pairs: every base against QUOTE, optionally one inverse pair QUOTE/<inv quote> (a symbol that reaches the margin
@@ -104,7 +104,16 @@ def _execute(ctx):
         BUY, SELL = bs.OrderOperation.BUY, bs.OrderOperation.SELL
         d = bs.backtesting_dispatcher(max_concurrent=ctx.maxc)
         pairs = [bs.Pair(b_, q_) for b_, q_ in pair_syms]
-        fee_s = fees.NoFee() if fee["kind"] == "none" else fees.Percentage(pct, minfee)
+        class ReceivedAssetFee(fees.FeeStrategy):
+            # public extension point: a scheme that charges buys in the asset they receive (as several exchanges do)
+            def calculate_fees(self, order, balance_updates):
+                b_ = order.pair.base_symbol
+                amt_ = balance_updates.get(b_, D(0))
+                if order.operation == BUY and amt_ > 0:
+                    return {b_: -(amt_ * D("0.001"))}
+                return {}
+        fee_s = (fees.NoFee() if fee["kind"] == "none" else ReceivedAssetFee() if fee["kind"] == "received"
+                 else fees.Percentage(pct, minfee))
         if liq["kind"] == "inf":
             liq_f = liquidity.InfiniteLiquidity
         else:
@@ -201,7 +210,7 @@ def _execute(ctx):
             return M["last_close"].get(pi)
 
         def fee_of(quote_amt, pi):
-            if fee["kind"] == "none":
+            if fee["kind"] in ("none", "received"):
                 return D(0)
             return q(max(abs(quote_amt) * pct / 100, minfee), qpp(pi), decimal.ROUND_UP)
 
@@ -298,7 +307,10 @@ def _execute(ctx):
                 for s, f in oi.fees.items():
                     exp[s] = exp.get(s, D(0)) - f
                 # ---- C09
-                if fee["kind"] == "none":
+                if fee["kind"] == "received" or M.get("prec_changed"):
+                    pass            # a user-defined scheme, or fees charged under a precision that changed since: C09 is
+                    #                 stated for the built-in schemes under one configured precision
+                elif fee["kind"] == "none":
                     if oi.fees:
                         V("C09", "fee-with-nofee", f"order charged {oi.fees} under the no-fee scheme")
                 elif oi.quote_amount_filled == 0:
@@ -1283,6 +1295,17 @@ def _execute(ctx):
                         await do_loan(op)
                     elif k == "repay":
                         await do_repay(op)
+                    elif k == "reprec":
+                        # set_symbol_precision may be called at any time; here a precision only ever gets finer
+                        sym_ = symbols[op["sym"] % len(symbols)]
+                        newp = min(8, prec[sym_] + op["by"])
+                        if newp != prec[sym_] and prec[sym_] != 18:
+                            e.set_symbol_precision(sym_, newp)
+                            prec[sym_] = newp
+                            M["dirty"] = True
+                            M["prec_changed"] = True
+                            ctx.probes["precision_made_finer"] += 1
+                            ctx.trace.append((f"set_symbol_precision({sym_},{newp})", "ok"))
             finally:
                 M["in_handler"] -= 1
 
